@@ -58,6 +58,13 @@ def b_len(ip, args, kwargs, node):
         return VInt(z3.Length(v.term))
     if isinstance(v, VSeq):
         return VInt(z3.Length(ip.st.heap[(v.ref, "seq")]))
+    if isinstance(v, VSet):
+        # cardinality of a symbolic set: an uninterpreted, non-negative function of the set (0 for the empty set)
+        arr = ip.st.heap[(v.ref, "set")]
+        card = z3.Function("card_" + str(arr.sort().domain()), arr.sort(), z3.IntSort())(arr)
+        ip.st.assume(card >= 0)
+        ip.st.assume((card == 0) == (arr == z3.K(arr.sort().domain(), z3.BoolVal(False))))
+        return VInt(card)
     h = ip.lib.get("__len__", {}).get(v.kind)
     if h:
         return h(ip, v)
@@ -318,6 +325,37 @@ def b_all(ip, args, kwargs, node):
 
 def b_partial(ip, args, kwargs, node):
     return VPartial(args[0], args[1:], kwargs)
+
+
+def b_bytearray(ip, args, kwargs, node):
+    ref = ip.st.new_ref()
+    ip.st.heap[(ref, "content")] = args[0].term if args else z3.StringVal("")
+    return VByteArray(ref)
+
+
+def _shared_mutation(ip, ba, what):
+    if ba.class_level and not ip.spec_mode:
+        ip.check("ownership:no-class-level-mutable-state", z3.BoolVal(False),
+                 where=f"{what} mutates an object created in the class body: it is shared by every instance (and connection)")
+
+
+def ba_extend(ip, args, kwargs, node):
+    ba, data = args
+    _shared_mutation(ip, ba, "bytearray.extend")
+    ip.st.heap[(ba.ref, "content")] = z3.Concat(ip.st.heap[(ba.ref, "content")], data.term)
+    return VNone
+
+
+def ba_clear(ip, args, kwargs, node):
+    _shared_mutation(ip, args[0], "bytearray.clear")
+    ip.st.heap[(args[0].ref, "content")] = z3.StringVal("")
+    return VNone
+
+
+def ba_decode(ip, args, kwargs, node):
+    if not ip.spec_mode and ip.st.choose(2, "decode") == 1:
+        raise_("UnicodeDecodeError")
+    return VStr(ip.st.heap[(args[0].ref, "content")])
 
 
 def b_frozenset(ip, args, kwargs, node):
@@ -618,7 +656,7 @@ def build_lib() -> dict:
                  ("isinstance", b_isinstance), ("getattr", b_getattr), ("hasattr", b_hasattr), ("setattr", b_setattr),
                  ("deepcopy", b_deepcopy), ("type", b_type), ("cast", b_cast), ("dict", b_dict), ("list", b_list),
                  ("tuple", b_tuple), ("zip", b_zip), ("any", b_any), ("all", b_all), ("partial", b_partial),
-                 ("frozenset", b_frozenset), ("set", b_frozenset), ("sum", b_sum)]:
+                 ("frozenset", b_frozenset), ("set", b_frozenset), ("sum", b_sum), ("bytearray", b_bytearray)]:
         lib[n] = VBuiltin(n, f)
     lib["Dict"] = VBuiltin("dict", b_dict)
     lib["timedelta"] = VBuiltin("timedelta", ctor_timedelta)
@@ -666,6 +704,9 @@ def build_lib() -> dict:
         ("dict", "copy"): VBuiltin("dict.copy", dict_copy),
         ("dict", "setdefault"): VBuiltin("dict.setdefault", dict_setdefault),
         ("str", "encode"): VBuiltin("str.encode", str_encode),
+        ("bytearray", "extend"): VBuiltin("bytearray.extend", ba_extend),
+        ("bytearray", "clear"): VBuiltin("bytearray.clear", ba_clear),
+        ("bytearray", "decode"): VBuiltin("bytearray.decode", ba_decode),
         ("bytes", "decode"): VBuiltin("bytes.decode", bytes_decode),
         ("str", "startswith"): VBuiltin("str.startswith", str_startswith),
         ("str", "find"): VBuiltin("str.find", str_find),
